@@ -16,7 +16,7 @@ RULE = ("MazePlot(maze)[.add_node_values][.add_true_path][.add_predicted_path].p
         "(valid, reversed, arbitrary cell lists): ax.images[0].get_array() must have size (r*ul+1)x(c*ul+1), every cell block must be "
         "uniform and non-wall (carry its value when values are supplied), the strip of every lattice edge must be passage iff the "
         "cells are connected (wall = -1 without values, masked/NaN with values); the true-path Line2D and predicted-path Quiver "
-        "geometry must be ul*(col+1/2), ul*(row+1/2) of their cells in order with end markers on the first/last cell; to_ascii() "
+        "geometry must run through the centres of their cells' blocks in order (centres read off the image's extent; end markers are not judged); to_ascii() "
         "must equal the maze's own as_ascii() (for a targeted maze, whose constructor solves it, after mapping X to space). Solved mazes also "
         "carry non-shortest stored solutions (detours). Every third maze is plotted again three times (same object or an equal fresh "
         "one) with the other values mode, the original one, and plain, and each image is judged against its own arguments. "
@@ -121,8 +121,23 @@ def check_drawn(ctx, artist, cl, ul, case):
                               dict(case, edge=((r, c), (rr, cc))))
 
 
-def centres(path, ul):
-    return np.array([[ul * (c + 0.5), ul * (r + 0.5)] for r, c in path], dtype=float)
+def centres(path, ul, im=None):
+    """data coordinates of the centres of the cell blocks of `path`, read off the image artist's extent (the default extent puts
+    the centre of cell (r, c) at (ul*(c+1/2), ul*(r+1/2)); an implementation may place the image elsewhere in data space)"""
+    if im is None:
+        return np.array([[ul * (c + 0.5), ul * (r + 0.5)] for r, c in path], dtype=float)
+    H, W = np.asarray(im.get_array()).shape[:2]
+    x0, x1, y0, y1 = im.get_extent()           # left, right, bottom, top
+    upper = getattr(im, "origin", "upper") == "upper"
+    out = []
+    for r, c in path:
+        jx = ul * c + ul / 2.0                   # pixel index (may be half-integer) of the block centre, pixel j spans [j-1/2, j+1/2]
+        jy = ul * r + ul / 2.0
+        x = x0 + (jx + 0.5) * (x1 - x0) / W
+        ytop, ybot = (y1, y0) if upper else (y0, y1)
+        y = ytop + (jy + 0.5) * (ybot - ytop) / H
+        out.append([x, y])
+    return np.array(out, dtype=float)
 
 
 def run(ctx):
@@ -256,46 +271,55 @@ def run(ctx):
                 continue
             check_image(ctx, ax.images[0].get_array(), cl, ul, values, case, artist=ax.images[0])
             # ---- paths -------------------------------------------------------
+            # Judged: every listed path is drawn through the centres of exactly its cells, in order (rows vertical, columns
+            # horizontal).  Not judged: which artist types are used for end markers, their number, z-order, colours.
+            im0 = ax.images[0]
             true_path = sol if kind in ("TargetedLatticeMaze", "SolvedMaze") else extra_true
-            lines = list(ax.lines)
-            k = 0
-            if true_path is not None:
-                exp = centres(true_path, ul)
+            lines = [np.asarray(ln.get_xydata(), dtype=float) for ln in ax.lines]
+            multi = [xy for xy in lines if xy.ndim == 2 and xy.shape[0] >= 2]
+
+            def drawn_as_line(exp):
+                return any(xy.shape == exp.shape and np.allclose(xy, exp, atol=1e-6 * max(1.0, float(np.abs(exp).max()))) for xy in multi)
+
+            if true_path is not None and len(true_path) >= 2:
                 ctx.tally("c20:true-path")
-                if ctx.check(len(lines) >= 3, "C20/true-path-missing", f"{len(lines)} lines", case):
-                    xy = np.asarray(lines[0].get_xydata(), dtype=float)
-                    if kind == "TargetedLatticeMaze":
-                        # the constructor solves the maze itself: any shortest route s..e is right, drawn through cell centres
-                        rc = np.stack([xy[:, 1] / ul - 0.5, xy[:, 0] / ul - 0.5], axis=1)
-                        cells_xy = [tuple(int(round(v)) for v in p) for p in rc]
-                        ok = bool(np.allclose(rc, np.round(rc))) and g.path_problems(cells_xy, s, e) is None and len(cells_xy) == len(sol)
-                        ctx.check(ok, "C20/true-path-geometry-wrong", lambda: f"targeted maze: drawn through {rc.tolist()}, not a shortest route {s}->{e} ({len(sol) - 1} steps)", case)
-                        exp = centres(cells_xy, ul) if ok else exp
-                    else:
-                        ctx.check(xy.shape == exp.shape and np.allclose(xy, exp), "C20/true-path-geometry-wrong",
-                                  lambda: f"got {xy.tolist()} expected {exp.tolist()}", case)
-                    m0 = np.asarray(lines[1].get_xydata(), dtype=float); m1 = np.asarray(lines[2].get_xydata(), dtype=float)
-                    ctx.check(m0.shape == (1, 2) and np.allclose(m0[0], exp[0]) and m1.shape == (1, 2) and np.allclose(m1[0], exp[-1]),
-                              "C20/true-path-end-markers-wrong", lambda: f"{m0.tolist()} {m1.tolist()} vs {exp[0].tolist()} {exp[-1].tolist()}", case)
-                    k = 3
-            else:
-                ctx.check(not any(len(ln.get_xydata()) > 1 for ln in lines[: max(0, len(lines) - 2 * len(preds))]), "C20/unexpected-true-path", "", case)
+                if kind == "TargetedLatticeMaze":
+                    # the constructor solves the maze itself: any shortest route s..e is right, drawn through cell centres
+                    ok = False
+                    for xy in multi:
+                        if xy.shape[0] != len(sol):
+                            continue
+                        # invert the centre map on the candidate by matching against all cells
+                        cand = []
+                        allc = {tuple(np.round(centres([cc], ul, im0)[0], 6)): cc for cc in cells}
+                        for pt in xy:
+                            cand.append(allc.get(tuple(np.round(pt, 6))))
+                        if None not in cand and g.path_problems(cand, s, e) is None:
+                            ok = True
+                            break
+                    ctx.check(ok, "C20/true-path-geometry-wrong", lambda: f"targeted maze: no drawn line runs through the cell centres of a shortest route {s}->{e} ({len(sol) - 1} steps); lines: {[xy.tolist() for xy in multi][:3]}", case)
+                else:
+                    exp = centres(true_path, ul, im0)
+                    ctx.check(drawn_as_line(exp), "C20/true-path-geometry-wrong",
+                              lambda: f"no drawn line runs through {exp.tolist()}; lines: {[xy.tolist() for xy in multi][:3]}", case)
+            elif true_path is not None:
+                ctx.tally("c20:one-cell-true-path(not judged)")
             quivers = [c for c in ax.collections if isinstance(c, Quiver)]
-            if ctx.check(len(quivers) == len(preds), "C20/predicted-path-count-wrong", f"{len(quivers)} quivers for {len(preds)} paths", case):
-                for t, (q, p) in enumerate(zip(quivers, preds)):
-                    exp = centres(p, ul)
+            if quivers or not preds:
+                if ctx.check(len(quivers) == len(preds), "C20/predicted-path-count-wrong", f"{len(quivers)} arrow sets for {len(preds)} predicted paths", case):
+                    for t, (q, p) in enumerate(zip(quivers, preds)):
+                        exp = centres(p, ul, im0)
+                        ctx.tally("c20:predicted-path")
+                        X, Y, U, V = (np.asarray(a, dtype=float).ravel() for a in (q.X, q.Y, q.U, q.V))
+                        tol = 1e-6 * max(1.0, float(np.abs(exp).max()))
+                        ok = (len(X) == len(p) - 1 and np.allclose(X, exp[:-1, 0], atol=tol) and np.allclose(Y, exp[:-1, 1], atol=tol)
+                              and np.allclose(U, exp[1:, 0] - exp[:-1, 0], atol=tol) and np.allclose(V, exp[1:, 1] - exp[:-1, 1], atol=tol))
+                        ctx.check(ok, "C20/predicted-path-geometry-wrong", lambda: f"path {p}: X={X.tolist()} Y={Y.tolist()} U={U.tolist()} V={V.tolist()} expected centres {exp.tolist()}", dict(case, pred=t))
+            else:
+                # predicted paths drawn without Quiver artists: each must then appear as a polyline through its cell centres
+                for t, p in enumerate(preds):
                     ctx.tally("c20:predicted-path")
-                    X, Y, U, V = (np.asarray(a, dtype=float).ravel() for a in (q.X, q.Y, q.U, q.V))
-                    ok = (len(X) == len(p) - 1 and np.allclose(X, exp[:-1, 0]) and np.allclose(Y, exp[:-1, 1])
-                          and np.allclose(U, exp[1:, 0] - exp[:-1, 0]) and np.allclose(V, exp[1:, 1] - exp[:-1, 1]))
-                    ctx.check(ok, "C20/predicted-path-geometry-wrong", lambda: f"path {p}: X={X.tolist()} Y={Y.tolist()} U={U.tolist()} V={V.tolist()}", dict(case, pred=t))
-                    if len(lines) >= k + 2:
-                        m0 = np.asarray(lines[k].get_xydata(), dtype=float); m1 = np.asarray(lines[k + 1].get_xydata(), dtype=float)
-                        ctx.check(m0.shape == (1, 2) and np.allclose(m0[0], exp[0]) and m1.shape == (1, 2) and np.allclose(m1[0], exp[-1]),
-                                  "C20/predicted-path-end-markers-wrong", lambda: f"{m0.tolist()} {m1.tolist()}", dict(case, pred=t))
-                        k += 2
-                    else:
-                        ctx.violation("C20/predicted-path-end-markers-missing", f"{len(lines)} lines", dict(case, pred=t))
+                    ctx.check(drawn_as_line(centres(p, ul, im0)), "C20/predicted-path-geometry-wrong", lambda: f"path {p} is not drawn", dict(case, pred=t))
             # ---- ascii ---------------------------------------------------------
             ctx.tally("c20:ascii")
             own = maze.as_ascii()
